@@ -35,6 +35,11 @@ CHECKS = {
    text="Every byte of the input is a symbolic variable: DecodeState+DecodeColumn of each column type and composition (rows 0..2), every message decoder with a symbolic revision, and whole blocks through Results.Auto and a typed target are executed on L arbitrary bytes. Implicit assertions on every path: no Go panic, no loop beyond the unwind bound, no allocation request that can exceed the by-design ceiling (100M rows x 512 B); explicit: on success Rows()==rows and every Row(i) is called. No mutation list is involved - all count/length/offset/key/meta values within L bytes are covered.",
    ref="DESIGN.md §4 C06",
    note="bounds: L = 6..36 input bytes depending on the target (see evidence), counts that become shapes enumerated up to 6/12 values per site (larger counts are out-of-bound paths, counted); allocation ceiling 51.2e9 bytes; two known findings (unchecked string length allocation in ColStr.DecodeColumn and Reader.StrRaw) are reported as KNOWN-FINDING; native replays run under ulimit -v 16 GiB"),
+ "C16": dict(
+   level="model_checking",
+   text="For every column type and composition, every history of up to 3 (quick) / 4 (thorough) steps over {Append symbolic value, Reset, encode-without-reset, block decode of valid symbolic data into the used column, failed decode of a truncated block + Reset} is executed on ONE column object; after encode steps and at the end the bytes the used column produces (EncodeRawBlock: Prepare, state, column) are read back into a fresh column and the solver decides that they equal the harness' plain list of model values; decode-after-use must equal the decoded values. Values are symbolic, so 'same value again' and 'new value' are one path each and the solver picks the equality pattern.",
+   ref="DESIGN.md §4 C16",
+   note="bounds: histories <=3/4 steps, strings 1 byte, inner arrays 1 element in quick (0..1 thorough), decode blocks of 0..2 rows, revision fixed 54460; WriteColumn path equivalence is C14's; Infer-in-history is not a step (types fixed per column)"),
 }
 
 NA = {
